@@ -37,12 +37,15 @@ if __name__ == '__main__':
         for u in importlib.import_module('contracts.' + m).UNITS:
             if len(sys.argv) > 2 and sys.argv[2] not in u.name: continue
             _U[u.name] = u
+    expected = set()
+    for line in open(os.path.join(ROOT, 'selftest', 'vacuity_expected.txt')):
+        if line.strip() and not line.startswith('#'): expected.add(tuple(x.strip() for x in line.split('::')[:2]))
     t0 = time.time(); bad = 0
     with multiprocessing.get_context('fork').Pool(14) as pool:
         for name, per, err in pool.imap_unordered(work, list(_U)):
             if per is None: print(f'{name}: could not be built: {err}'); continue
             tot = sum(v[0] for v in per.values()); vac = sum(v[1] for v in per.values())
-            dead = [ob for ob, v in per.items() if v[0] == v[1]]
+            dead = [ob for ob, v in per.items() if v[0] == v[1] and (name, ob) not in expected]
             print(f'{name:58s} obligation paths {tot:5d}  on contradictory hypotheses {vac:5d}' + (f'   NEVER REALLY CHECKED: {dead[:6]}' if dead else ''))
             bad += len(dead)
     print(f'{len(_U)} units, {bad} obligation names without a single satisfiable path, {round(time.time() - t0)} s')
